@@ -5,7 +5,7 @@ prints PROPERTY-HOLDS on the clean tree and PROPERTY-BROKEN on the changed one. 
 /verif/seeded/<id>/<n>/ with confirm.json.  usage: seed_confirm.py <id> [n ...] [--no-tests]"""
 import json, os, shutil, subprocess, sys, time
 
-WT = "/tmp/conf/repo"
+WT = os.environ.get("CONF_WT") or ("/tmp/conf2/repo" if "--no-tests" in sys.argv else "/tmp/conf/repo")   # demo-only runs never touch the worktree a test run is building in
 
 
 def sh(cmd, cwd=None, timeout=3600):
@@ -15,7 +15,7 @@ def sh(cmd, cwd=None, timeout=3600):
 
 def ensure_wt():
     if not os.path.isdir(WT):
-        os.makedirs("/tmp/conf", exist_ok=True)
+        os.makedirs(os.path.dirname(WT), exist_ok=True)
         subprocess.run(["git", "-C", "/repo", "worktree", "add", "--detach", WT, "HEAD"], check=True, capture_output=True)
     sh("git checkout -q -- . && git clean -fdq -e _build", cwd=WT)
     head = subprocess.run(["git", "-C", "/repo", "rev-parse", "HEAD"], capture_output=True, text=True).stdout.strip()
@@ -25,7 +25,7 @@ def ensure_wt():
 
 
 def demo(src, inc, tag):
-    d = "/tmp/conf/demo_%s" % tag
+    d = os.path.dirname(WT) + "/demo_%s" % tag
     shutil.rmtree(d, ignore_errors=True)
     shutil.copytree(src, d)
     try:
